@@ -46,7 +46,7 @@ var fsm struct {
 	encoders map[*json.Encoder]*os.File
 	decoders map[*json.Decoder]*os.File
 	ops      int    // mutating operations so far (crash points)
-	crashAt  int    // -1: never
+	crashAt  int    // -1: never (may be symbolic)
 	torn     bool   // crash inside the write instead of before it
 	crashed  bool
 	oplog    []string
@@ -80,7 +80,7 @@ func fsPoint(what string) bool {
 		}
 		fsm.crashed = true
 		verifLog("CRASH before", what)
-		panic(fsCrash{})
+		verifCrash()
 	}
 	return false
 }
@@ -88,7 +88,7 @@ func fsPoint(what string) bool {
 func fsTear(what string) {
 	fsm.crashed = true
 	verifLog("CRASH inside", what)
-	panic(fsCrash{})
+	verifCrash()
 }
 
 func fsNotExist(op, name string) error {
